@@ -468,6 +468,12 @@ def scenarios(T, rng, n_random):
              {'kind': 'valid', 'path': './tb', 'lists': random_lists(T, rng, unknown_in='opt')},
              {'kind': 'valid', 'path': './tb', 'lists': random_lists(T, rng, unknown_in='vul')},
              {'kind': 'valid', 'path': './tb', 'lists': random_lists(T, rng, unknown_in='qa')},
+             # very many unknown names (a count is not an exit status: only its low 8 bits reach the parent process)
+             {'kind': 'valid', 'path': './tb', 'lists': {'opt': ['bogus_%d' % i for i in range(256)], 'vul': [], 'qa': []}},
+             {'kind': 'valid', 'path': './tb', 'lists': {'opt': ['nope%d' % i for i in range(100)] + ['sstore'], 'vul': ['x%d' % i for i in range(100)],
+                                                         'qa': ['y%d' % i for i in range(56)] + ['constructor_order']}},
+             {'kind': 'valid', 'path': './tb', 'lists': {'opt': [], 'vul': [], 'qa': ['q_%d' % i for i in range(512)]}},
+             {'kind': 'valid', 'path': './tb', 'lists': {'opt': ['sstore'] * 256 + ['bogus'] * 255, 'vul': [], 'qa': []}},
              {'kind': 'syntax', 'path': './tb', 'lists': random_lists(T, rng)},
              {'kind': 'missingkey', 'path': './tb', 'lists': random_lists(T, rng)},
              {'kind': 'nopath', 'path': './tb', 'lists': random_lists(T, rng)},
@@ -636,6 +642,7 @@ def part_runs(rep, ctx, T, cands, sel, only=None):
             model, mcands = None, None
         samples = []
         n_viol = 0
+        pending_s, pending_m = [], []     # specification failures are reported first (they come with a failing input)
         for idx, sc in enumerate(scs):
             obs = run_scenario(binpath, sc, files, root)
             stats['runs'] += 1
@@ -705,21 +712,20 @@ def part_runs(rep, ctx, T, cands, sel, only=None):
             if problems:
                 found = True
                 n_viol += 1
-                if n_viol <= 3 and only is None:
-                    rep.violation('; '.join(problems) + '  [argv: %s]' % ' '.join(obs['argv']),
+                if only is None:
+                    pending_s.append(('; '.join(problems) + '  [argv: %s]' % ' '.join(obs['argv']),
                                   {'kind': 'S', 'sub': 'scenario', 'input': sc.describe(), 'k': sc.k, 'argv': obs['argv'], 'exit': obs['exit'],
                                    'stderr': obs['stderr'], 'report_written': obs['report_written'],
                                    'directories_in_report': got_dirs, 'sections_in_report': sorted(got_sections) if got_sections else None,
                                    'spec_expected': {k: (sorted(v) if isinstance(v, set) else v) for k, v in exp.items()},
-                                   'files': files, 'theorem': 'path_precedence' if 'director' in problems[0] or 'exit status' in problems[0] else 'selection_exact'})
+                                   'files': files, 'theorem': 'path_precedence' if 'director' in problems[0] or 'exit status' in problems[0] else 'selection_exact'}))
             elif mproblem:
                 found = True
                 n_viol += 1
-                if n_viol <= 3 and only is None:
-                    rep.violation(mproblem + '  [argv: %s]' % ' '.join(obs['argv']),
+                if only is None:
+                    pending_m.append((mproblem + '  [argv: %s]' % ' '.join(obs['argv']),
                                   {'kind': 'M', 'sub': 'scenario', 'input': sc.describe(), 'k': sc.k, 'argv': obs['argv'], 'exit': obs['exit'],
-                                   'stderr': obs['stderr'], 'files': files, 'model_function': 'Opts.resolve', 'rust_function': 'opts::Opts::new'},
-                                  no_input=True)
+                                   'stderr': obs['stderr'], 'files': files, 'model_function': 'Opts.resolve', 'rust_function': 'opts::Opts::new'}))
             if len(samples) < 3 and idx % 17 == 5:
                 samples.append({'argv': obs['argv'], 'toml': sc.toml, 'contracts': sc.contracts, 'exit': obs['exit'],
                                 'directories_in_report': got_dirs, 'sections': len(got_sections) if got_sections is not None else None})
@@ -731,6 +737,10 @@ def part_runs(rep, ctx, T, cands, sel, only=None):
                 print('model         :', model[idx] if model is not None else 'unavailable')
                 print('problems      :', problems or mproblem or 'none')
         stats['model_evaluated'] = model is not None
+        for what, payload in pending_s[:3]:
+            rep.violation(what, payload)
+        for what, payload in pending_m[:max(0, 3 - len(pending_s))]:
+            rep.violation(what, payload, no_input=True)
     finally:
         shutil.rmtree(root, ignore_errors=True)
     return found, stats, samples
